@@ -295,9 +295,88 @@ def r2b(ctx, fs):
         ctx.broken('lexer::is_id_part is no longer a pure range test; C18.R2 cannot assume is_id_part(-1) == false')
 
 
+def r3(ctx, fs):
+    """single ownership of syntax-tree nodes: the parser hands raw node pointers to the node that will delete them; a local that has been handed over must be
+    re-assigned (or cleared) before it is handed over again on the same execution, otherwise two owners delete the same node (double free at teardown)."""
+    rid = 'C18.R3'
+    ctx.rule(rid, 'riddle::parser: a local syntax-tree pointer (or vector of them) that was handed to an owner - a new_<node> factory or a container of the node under construction - is '
+                  're-assigned / cleared / re-declared before it is handed over again on any path (no node gets two owners)', floor=20)
+    from .. import cfg as _cfg
+
+    def ast_ptr(t):
+        t = (t or '').replace('const ', '')
+        return ('riddle::ast::' in t and '*' in t) or (t.startswith('std::vector<') and 'riddle::ast::' in t and '*' in t)
+    n_sinks = 0
+    for f in fs.defined():
+        if f.get('class') != 'riddle::parser' or f.body is None or not f.get('cfg'):
+            continue
+        locs = {n['loc']: n for n in f.nodes() if n.get('k') == 'VarDecl' and ast_ptr(n.get('t'))}
+        if not locs:
+            continue
+        g = _cfg.Graph(f)
+
+        def arg_vars(call):
+            out = []
+            for a in (call.get('c') or [])[1:]:
+                x = a
+                while x.get('k') in ('CXXConstructExpr', 'CallExpr') and x.get('callee_name') in ('std::move',) or (x.get('k') == 'CXXConstructExpr' and len(x.get('c') or ()) == 1):
+                    x = x['c'][-1]
+                if x.get('k') == 'DeclRefExpr' and x.get('dloc') in locs:
+                    out.append(x['dloc'])
+            return out
+        sinks, resets = {}, {}
+        for node in g.nodes:
+            t = g.tree(node)
+            if t is None:
+                continue
+            k = t.get('k')
+            if k == 'CXXMemberCallExpr':
+                cn = t.get('callee_name') or ''
+                me = t['c'][0]
+                base = (me.get('c') or [None])[0] if me.get('k') == 'MemberExpr' else None
+                if cn.startswith('riddle::parser::new_') or (cn.rsplit('::', 1)[-1] in ('emplace_back', 'push_back', 'emplace', 'insert') and cn.startswith('std::')):
+                    for d in arg_vars(t):
+                        # pushing a pointer into a vector that is itself a tracked local hands it to that vector
+                        sinks.setdefault(d, set()).add(node)
+                if cn.rsplit('::', 1)[-1] in ('clear',) and base is not None and base.get('k') == 'DeclRefExpr' and base.get('dloc') in locs:
+                    resets.setdefault(base['dloc'], set()).add(node)
+            elif k in ('BinaryOperator', 'CXXOperatorCallExpr') and t.get('op') == '=':
+                lhs = t['c'][0] if k == 'BinaryOperator' else t['c'][1]
+                if lhs.get('k') == 'DeclRefExpr' and lhs.get('dloc') in locs:
+                    resets.setdefault(lhs['dloc'], set()).add(node)
+            elif k == 'VarDecl' and t.get('loc') in locs:
+                resets.setdefault(t['loc'], set()).add(node)
+            elif k == 'DeclStmt':
+                for d in t.get('c') or ():
+                    if d.get('k') == 'VarDecl' and d.get('loc') in locs:
+                        resets.setdefault(d['loc'], set()).add(node)
+        for d, ss in sorted(sinks.items()):
+            v = locs[d]
+            for s0 in sorted(ss):
+                n_sinks += 1
+                again = set()
+                for nx in g.succ.get(s0, ()):
+                    again |= (g.reach(nx, avoid=frozenset(resets.get(d, ()))) & ss)
+                ctx.instance(rid, [f.id, v.get('name'), short((g.tree(s0) or {}).get('loc'))], {'function': f.id, 'local': v.get('name'), 'type': v.get('t'), 'handed_over_at': short((g.tree(s0) or {}).get('loc')),
+                                                                                               'handed_over_again_without_reset': bool(again)})
+                if again:
+                    t2 = g.tree(sorted(again)[0])
+                    ctx.finding(rid, f.id, 'owner:%s' % _role_of(f, v), '%s: the syntax-tree pointer `%s` handed to an owner at %s can be handed over again at %s without having been re-assigned or cleared in between '
+                                '(e.g. on the next iteration of the loop): two nodes will delete the same sub-tree when the compilation unit is destroyed' % (
+                                    short(f.name), v.get('name'), short((g.tree(s0) or {}).get('loc')), short(t2.get('loc'))), node=g.tree(s0))
+    return n_sinks
+
+
+def _role_of(f, v):
+    """stable discriminator of a local: its type and its ordinal among the locals of that type in the function."""
+    same = [n for n in f.nodes() if n.get('k') == 'VarDecl' and n.get('t') == v.get('t')]
+    return '%s#%d' % ((v.get('t') or '').replace('riddle::ast::', ''), [i for i, n in enumerate(same) if n is v][0] if any(n is v for n in same) else 0)
+
+
 def run(ctx):
     fs = ctx.facts('F')
     _seen.clear()
     r1(ctx, fs)
     r2b(ctx, fs)
     r2(ctx, fs)
+    r3(ctx, fs)
